@@ -105,6 +105,9 @@ func buildMsgObject(m *abs.Msg) (*message.IKEMessage, error) {
 		lm = message.NewMessage(m.ISPI, m.RSPI, m.Exch, m.Flags&0x20 != 0, m.Flags&0x08 != 0, m.MsgID, lm.Payloads)
 	}
 	core.GlobalCount("msg_object_" + provNames[prov])
+	if hashMsg(m)%5 == 0 {
+		pokeAccessors(lm) // the application logs / dispatches on the message before sending it
+	}
 	return lm, nil
 }
 
@@ -286,6 +289,63 @@ func scribbleObject(v interface{}) {
 	walk(reflect.ValueOf(v), 0)
 }
 
+// pokeAccessors calls the exported niladic read-only helpers (Type, String, Is..., Get..., TransformID, ...) of an object
+// and of everything reachable from it: what logging and dispatch code does all the time; they must have no effect.
+func pokeAccessors(v interface{}) {
+	seen := map[uintptr]bool{}
+	okName := func(n string) bool {
+		for _, p := range []string{"Type", "String", "Is", "Get", "TransformID", "SubType", "Len", "Priority"} {
+			if strings.HasPrefix(n, p) {
+				return true
+			}
+		}
+		return false
+	}
+	var walk func(v reflect.Value, depth int)
+	call := func(v reflect.Value) {
+		t := v.Type()
+		for i := 0; i < t.NumMethod(); i++ {
+			m := t.Method(i)
+			if m.Type.NumIn() == 1 && okName(m.Name) {
+				core.Try(func() { v.Method(i).Call(nil) })
+			}
+		}
+	}
+	walk = func(v reflect.Value, depth int) {
+		if depth > 10 || !v.IsValid() {
+			return
+		}
+		switch v.Kind() {
+		case reflect.Ptr:
+			if v.IsNil() || seen[v.Pointer()] {
+				return
+			}
+			seen[v.Pointer()] = true
+			call(v)
+			walk(v.Elem(), depth+1)
+		case reflect.Interface:
+			if !v.IsNil() {
+				walk(v.Elem(), depth+1)
+			}
+		case reflect.Struct:
+			for i := 0; i < v.NumField(); i++ {
+				if v.Type().Field(i).PkgPath == "" {
+					walk(v.Field(i), depth+1)
+				}
+			}
+		case reflect.Slice:
+			if v.Type().Elem().Kind() == reflect.Uint8 {
+				return
+			}
+			for i := 0; i < v.Len() && i < 40; i++ {
+				walk(v.Index(i), depth+1)
+			}
+		}
+	}
+	walk(reflect.ValueOf(v), 0)
+	core.GlobalCount("objects_whose_accessors_were_called")
+}
+
 // siblingMsg agrees with m in everything a careless cache key might look at (header fields, first payload, number of
 // payloads where possible) but differs in content.
 func siblingMsg(m *abs.Msg) *abs.Msg {
@@ -347,6 +407,9 @@ func libDecode(b []byte) (m *abs.Msg, err error, p *core.Panic) {
 		lm := new(message.IKEMessage)
 		err = lm.Decode(b)
 		if err == nil {
+			if hashBytes(b)%5 == 2 {
+				pokeAccessors(lm) // the application logs what it received before looking at it
+			}
 			m = bridge.ObserveMsg(lm)
 		}
 	})
@@ -474,6 +537,9 @@ func libUnprotect(b []byte, preparse bool, key *security.IKESAKey, initiator boo
 			if lm == nil {
 				// neither a value nor an error: reported through the panic channel so that every caller judges it
 				panic("DecodeDecrypt returned (nil message, nil error)")
+			}
+			if hashBytes(b)%5 == 2 {
+				pokeAccessors(lm)
 			}
 			m = bridge.ObserveMsg(lm)
 			recycle(lm)
